@@ -5,6 +5,7 @@
   ./check <Cnn> --replay <file>       re-run the case(s) of a replay file
   ./check setup                       build everything from files on disk
   ./check lint                        lint the Coq development
+  ./check coqchk                      coqchk -o over every property file (also part of every thorough run, cached)
 
 Exit 0: property held on everything explored (known findings are printed as
 KNOWN-FINDING lines).  Exit 1: a line `VIOLATION property=<id> replay=<path>`
@@ -163,6 +164,93 @@ def property_theorems(prop):
             "compiled": rc == 0, "output": out[-3000:], "assumptions": assumptions}
 
 
+def coqchk(props, force=False):
+    """Re-checks the compiled property files and everything they depend on with Coq's independent checker (coqchk -o prints the
+    axioms the loaded libraries rely on).  Cached per content of the compiled files: the thorough tier of every property asks
+    for it, one run serves them all."""
+    h = hashlib.sha256()
+    for f in coq_files():
+        vo = f[:-2] + ".vo"
+        if os.path.exists(vo):
+            h.update(open(vo, "rb").read())
+    key = h.hexdigest()[:16]
+    cdir = os.path.join(BUILD, "coqchk")
+    os.makedirs(cdir, exist_ok=True)
+    cf = os.path.join(cdir, key + ".json")
+    if os.path.exists(cf) and not force:
+        return json.load(open(cf))
+    mods = ["Goag.Properties." + p for p in props if os.path.exists(os.path.join(COQ, "theories", "Properties", p + ".vo"))]
+    t0 = time.time()
+    with Lock():
+        rc, out = sh(["timeout", "3000", "coqchk", "-silent", "-o", "-Q", "theories", "Goag"] + mods, cwd=COQ)
+    m = re.search(r"CONTEXT SUMMARY.*", out, re.S)
+    summary = re.sub(r"[ \t]+", " ", m.group(0)).strip() if m else out[-1500:]
+    ax = re.search(r"\* Axioms:(.*?)(?=\n\s*\* |\Z)", summary, re.S)
+    res = {"ok": rc == 0, "modules": mods, "axioms": ax.group(1).strip() if ax else "?", "summary": summary[:3000],
+           "wall_s": round(time.time() - t0, 1), "cmd": "coqchk -silent -o -Q theories Goag " + " ".join(mods)}
+    with open(cf, "w") as f:
+        json.dump(res, f)
+    return res
+
+
+CROSS_FUNS = {
+    # case-line prefix -> (Gallina function of type str -> str, the modules it needs)
+    "N pfn": ("Naming.public_field_name", "Model.Naming"),
+    "N cmt": ("Holes.comment", "Model.Holes"),
+    "UE pe": ("UrlEscape.path_escape", "Model.UrlEscape"),
+    "UE qe": ("UrlEscape.query_escape", "Model.UrlEscape"),
+    "C13 enc": ("(fun s => match GoLit.go_eval (GoLit.encode s) with Some v => v | None => [] end)", "Model.GoLit"),
+}
+
+
+def crosscheck_extraction(run, cases, model, every=50):
+    """thorough tier: a sample of the string-valued cases is evaluated INSIDE Coq (vm_compute on the Gallina definition) and must
+    give what the extracted OCaml program printed: checks extraction and the driver's conversions together."""
+    picked = {}
+    for i, c in enumerate(cases):
+        f = c.split(" ")
+        if len(f) != 3 or (f[0] + " " + f[1]) not in CROSS_FUNS:
+            continue
+        mv = parse_kv(model[i]).get("model")
+        if mv is None or not re.fullmatch(r"-|([0-9a-f][0-9a-f])*", f[2]) or not re.fullmatch(r"-|([0-9a-f][0-9a-f])*", mv):
+            continue
+        picked.setdefault(f[0] + " " + f[1], []).append((f[2], mv))
+    total, bad = 0, []
+    for key, items in sorted(picked.items()):
+        items = items[::every][:400]
+        fun, mod = CROSS_FUNS[key]
+        lst = lambda h: "[" + ";".join(str(b) for b in (bytes.fromhex(h) if h != "-" else b"")) + "]"
+        src = ("From Coq Require Import List Ascii. Import ListNotations.\n"
+               "From Goag Require Import Base.Str %s.\n"
+               "Definition inputs : list (list nat) := [%s].\n"
+               "Definition outs := Eval vm_compute in map (fun s => map nat_of_ascii (%s (map ascii_of_nat s))) inputs.\n"
+               "Set Printing Width 1000000. Set Printing Depth 1000000.\nPrint outs.\n") % (
+                   mod, ";".join(lst(h) for h, _ in items), fun)
+        q = os.path.join(BUILD, "crosscheck_%s.v" % re.sub(r"\W", "_", key))
+        open(q, "w").write(src)
+        rc, out = sh(["timeout", "600", "coqc", "-Q", os.path.join(COQ, "theories"), "Goag", q], cwd=BUILD)
+        for ext in (".vo", ".vok", ".vos", ".glob"):
+            try:
+                os.remove(q[:-2] + ext)
+            except OSError:
+                pass
+        m = re.search(r"outs\s*=\s*(\[.*\])\s*:\s*list", out, re.S)
+        if rc != 0 or not m:
+            bad.append((key, "coqc failed: " + out[-300:]))
+            continue
+        got = json.loads(re.sub(r";", ",", m.group(1)))
+        for (h, mv), g in zip(items, got):
+            total += 1
+            want = list(bytes.fromhex(mv)) if mv != "-" else []
+            if g != want:
+                bad.append((key + " " + h, "in Coq: %s, extracted: %s" % (bytes(g).hex(), mv)))
+    run.coverage["extraction_crosscheck"] = {"evaluated_in_coq": total, "mismatches": len(bad), "functions": sorted(picked)}
+    run.log("extraction cross-check: %d cases evaluated inside Coq, %d differ from the extracted program" % (total, len(bad)))
+    if bad:
+        run.violation({"property": run.prop, "input": None, "broken": "extraction / driver: the extracted program and the Gallina definition "
+                       "evaluated inside Coq disagree", "cases": bad[:5]}, None, note="no-failing-input-found")
+
+
 def count_lemmas(prop):
     """Lemmas/theorems in the Proofs files the property file imports."""
     path = os.path.join(COQ, "theories", "Properties", prop + ".v")
@@ -307,6 +395,14 @@ class Run:
             self.log("property theorems not closed by `exact`: %s" % pt["not_exact"])
         self.log("coq: %d property theorems + %d supporting lemmas checked; lint ok; assumptions: %s" % (
             len(pt["names"]), nl, "closed" if not open_ax else json.dumps(open_ax)))
+        if self.tier == "thorough":
+            # the independent checker over every property file that is compiled (one cached run per state of the .vo files)
+            ck = coqchk(sorted(CHECKS))
+            self.coverage["coqchk"] = ck
+            self.log("coqchk: %s; axioms: %s (%s s)" % ("ok" if ck["ok"] else "FAILED", ck["axioms"], ck["wall_s"]))
+            if not ck["ok"]:
+                self.coq_failure = {"broken": "coqchk", "log": ck["summary"]}
+                return False
         return True
 
     # -- tie side -------------------------------------------------------------
@@ -524,6 +620,8 @@ def check_C13(run, replay=None):
     cases, impl, model, meta = run.run_vh(["-cases", replay] if replay else None)
     compare(run, cases, impl, model,
             nontrivial=lambda c, iv: len(c.split(" ")[2]) > 2)
+    if run.tier == "thorough" and not replay:
+        crosscheck_extraction(run, cases, model)
     k = meta.get("kinds", {})
     idx = sorted({min(7, len(cases) - 1), min(1500, len(cases) - 1), len(cases) - 1})
     run.coverage.update({
@@ -1383,6 +1481,8 @@ def check_C09(run, replay=None):
         run.violation({"property": run.prop, "case": cases[i], "impl": impl[i], "model": model[i], "input": None,
                        "broken": "correspondence: net/url differs from its transcription Model/UrlEscape.v (the C09 wire theorems are about the latter)",
                        "mismatching_cases": len(ucorr)}, cases[i], note="no-failing-input-found")
+    if run.tier == "thorough" and not replay:
+        crosscheck_extraction(run, cases, model, every=100)
     run.coverage["url_escape_cases"] = len(uidx)
     run.coverage["url_escape_mismatches"] = len(ucorr)
     for c in null_hits:
@@ -1544,6 +1644,8 @@ def check_C01(run, replay=None):
     # (1) the naming function against its model
     nidx = [i for i, c in enumerate(cases) if c.startswith("N ")]
     compare(run, [cases[i] for i in nidx], [impl[i] for i in nidx], [model[i] for i in nidx])
+    if run.tier == "thorough" and not replay:
+        crosscheck_extraction(run, cases, model, every=200)
     # (2) the matrix: success => parses, gofmt-stable, standard library only, type-checks
     verdicts = {}
     bad = []
@@ -1943,6 +2045,12 @@ def main(argv):
         return 2
     if argv[1] == "setup":
         return setup()
+    if argv[1] == "coqchk":
+        ok, out = build_coq("setup")
+        ck = coqchk(sorted(CHECKS), force=True)
+        print(ck["cmd"])
+        print(ck["summary"])
+        return 0 if ck["ok"] else 1
     if argv[1] == "lint":
         probs = lint()
         for p in probs:
